@@ -22,7 +22,7 @@ fn blank() -> serde_json::Map<String, Value> {
     for k in ["kind", "name", "vis", "recv", "ret", "trait", "self_ty", "field_vis", "path"] {
         m.insert(k.to_string(), json!(""));
     }
-    for k in ["unsafe", "const", "ret_self", "ret_mut", "direct", "calls_ctor", "has_unsafe", "in_type_impl", "writes_field", "mut_self_param"] {
+    for k in ["unsafe", "const", "ret_self", "ret_mut", "direct", "calls_ctor", "has_unsafe", "in_type_impl", "writes_field", "mut_self_param", "non_exhaustive"] {
         m.insert(k.to_string(), json!(false));
     }
     m
@@ -193,6 +193,7 @@ fn walk(items: &[syn::Item], type_name: &str, out: &mut Vec<Value>, depth: usize
                 m.insert("kind".into(), json!("enum"));
                 m.insert("name".into(), json!(e.ident.to_string()));
                 m.insert("vis".into(), json!(vis_str(&e.vis)));
+                m.insert("non_exhaustive".into(), json!(e.attrs.iter().any(|a| a.path().is_ident("non_exhaustive"))));
                 out.push(Value::Object(m));
             }
             syn::Item::Use(u) => {
